@@ -27,8 +27,11 @@ RULE_TEXT = ("In-process server stack (SQLite or memory store), idle_timeout in 
              "processed (tick reduced, folded into a resume, or consumed by a wait) before the Fin-made end, the system becomes quiet "
              "within 3000 s of the last send; at every TickIdleRelease the run has no executing body, unprocessed result or message "
              "in its DBOS mailbox; ownership grants (try_begin_resume -> released) alternate with begun releases (at most one resumer "
-             "per release cycle); never two live control loops. Not exercised: a replica crash in the middle of a release (DBOS "
-             "recovery of the releasing executor), the Postgres lock class itself. Non-trivial: >=1 send reached a released run or "
+             "per release cycle); never two live control loops. Crash arm (30% of the DBOS runs without a stall): the replica that hosts "
+             "and releases the run dies at its j-th committed transaction counted from just before the release timer fires (or from the "
+             "first idle announcement), everything in its memory is gone, it comes back 1/30/150 s later (DBOS recovers its pending "
+             "workflow at launch) while senders go through the other replica. Not exercised: the Postgres lock class itself, a crash "
+             "of the resuming replica. Non-trivial: >=1 send reached a released run or "
              "raced a release at the same instant or polled a 'releasing' row; distinct = abstract trace shape.")
 COMPONENTS = {"real": ["IdleReleaseDecorator + KeyedLock reload lock, IdleReleaseExternalRunAdapter.send_event, PersistenceDecorator, server stack, engine",
                        "DBOS half: DBOSIdleReleaseDecorator (deferred release, send_event poll loop, _do_resume), SqliteRunLifecycleLock, DBOSRuntime adapters, TickPersistenceDecorator, ServerRuntimeDecorator, _WorkflowService, SqliteWorkflowStore (two replicas)"],
@@ -36,9 +39,9 @@ COMPONENTS = {"real": ["IdleReleaseDecorator + KeyedLock reload lock, IdleReleas
               "sim": ["loop, clocks, runner registry, senders, lifecycle latency/stall proxy"]}
 ASSUMPTIONS = ["DBOS half runs on the emulated dbos package (contract in stubs/dbos/__init__.py) and on SqliteRunLifecycleLock behind a latency proxy standing in for a networked lock; PostgresRunLifecycleLock is not run",
                "the lifecycle row is created by the harness (the repository never calls RunLifecycleLock.create: known finding C36-dbos-never-released)",
-               "a replica crash during a release is not simulated on the DBOS half"]
+               "a crash loses exactly what the dying process had not committed (SQLite seam); DBOS recovery is the emulator's (contract item 5)"]
 EXPECTED_PROBES = ["store-latency-arm", "send-to-released-run", "send-at-release-instant", "two-senders-same-instant", "released", "release-while-working",
-                   "lifecycle-latency-arm", "sender-polled-while-releasing", "sends-through-both-replicas", "resumed"]
+                   "lifecycle-latency-arm", "sender-polled-while-releasing", "sends-through-both-replicas", "resumed", "releaser-crashed", "crash-with-lifecycle-releasing"]
 LEVEL_TEXT = "Seeded exploration of sender instants around release/reload; safety rules at every runner start/exit, liveness (event processed) at quiescence."
 LEVEL_NOTE = "Trusted: simulator loop/clocks, runner registry (subclass of the private _ControlLoopRunner, behaviour unchanged)."
 
@@ -320,29 +323,69 @@ async def scenario_dbos(world, spec):
             # a releaser that is as good as dead (longer than the observation window) is only meaningful once the old execution has
             # ended and nothing but the 'released' mark is missing: the case the crash timeout exists for
             stall["secs"] = 200.0
+    crash = None
+    if stall is None and tape.chance(30, 100, "crash?"):
+        # the replica that hosts the run (and releases it) dies at its j-th committed transaction after the run first went idle and
+        # comes back `down` seconds later (DBOS recovers its pending workflows at launch)
+        crash = {"j": tape.rng_int(1, 8, "crash.j"), "down": float(tape.choice([1, 30, 150], "crash.down"))}
     reps = {}
-    for name, ex in (("A", "exec-1"), ("B", "exec-2")):
+
+    async def boot_replica(name, ex):
         inc = world.new_incarnation(ex, server_chain=True)
         inc.name = name
         reps[name] = inc
-    wfs = {n: inc.add_workflow("wf", spec) for n, inc in reps.items()}
-    for inc in reps.values():
+        wfs[name] = inc.add_workflow("wf", spec)
         await inc.start()
         real = await inc.call(inc.chain._get_lifecycle())
-        inc.chain._lifecycle_lock_instance = _SlowLifecycle(real, world, inc.name, lat, stall)
+        inc.chain._lifecycle_lock_instance = _SlowLifecycle(real, world, name, lat, stall)
+        return inc
+    wfs: dict = {}
+    for name, ex in (("A", "exec-1"), ("B", "exec-2")):
+        await boot_replica(name, ex)
     a = reps["A"]
     hd = await a.call(a.service.start_workflow(wfs["A"], "h1", start_event=EV.Start0(uid=world.uid())))
     rid = world._run = hd.run_id
     await a.call(a.chain._lifecycle_lock_instance._real.create(rid))
     answered: set = set()
+    down = {"A": False}
+    if crash:
+        from sim.sqlite_seam import SEAM
+        world.crash_event = asyncio.Event()
+
+        async def supervisor():
+            t_idle = None
+            for _ in range(400):                    # until the run has announced that it is idle (its release timer is armed then)
+                t_idle = max([t for _, t, k, f in world.trace.recs if k == "publish" and f["ev"] == "WorkflowIdleEvent"], default=None)
+                if t_idle is not None:
+                    break
+                await asyncio.sleep(0.125)
+            if t_idle is not None and crash["j"] > 2:
+                # count the commits from just before the release timer fires: the crash lands inside the release sequence
+                await asyncio.sleep(max(0.0, t_idle + it - 1.0 / 2048 - world.clock.t))
+            SEAM.crash_plan = {"table": None, "k": SEAM.total_commits + max(1, crash["j"] - 2), "inc": reps["A"].n}
+            await world.crash_event.wait()
+            down["A"] = True
+            world.probe("releaser-crashed")
+            lc_now, _ = _lc_state(world)
+            world.trace.log("replica-crash", replica="A", lifecycle=lc_now)
+            world.probe(f"crash-with-lifecycle-{lc_now}")
+            await world.kill(reps["A"])
+            world.open_bodies.clear()
+            await asyncio.sleep(crash["down"])
+            await boot_replica("A", "exec-1")
+            down["A"] = False
+            world.trace.log("replica-restarted", replica="A")
+        sup = asyncio.ensure_future(supervisor())
 
     async def send_via(rep: str, ev, label: str) -> None:
+        if rep == "A" and down["A"]:
+            rep = "B"                   # the load balancer does not route to a dead replica
         inc = reps[rep]
         live = bool(world.live_runners.get(rid))
         if not live:
             world.probe("send-to-released-run")
         world.probe(f"send-via-{rep}")
-        world.trace.log("send", uid=ev.uid, ev=type(ev).__name__, key=getattr(ev, "key", None), label=label, replica=rep, live=live)
+        world.trace.log("send", uid=ev.uid, ev=type(ev).__name__, key=getattr(ev, "key", None), label=label, replica=rep, live=live, via_inc=inc.n)
         world.fault("external-send")
         try:
             await inc.call(inc.service.send_event("h1", ev))
@@ -382,6 +425,13 @@ async def scenario_dbos(world, spec):
             break
         answered.add(pend[0]["key"])
         await send_via(tape.choice(["A", "B"], "late.rep"), world.mk("Resp0", -1, "ext", key=pend[0]["key"]), "late-response")
+    if crash:
+        if not world.crash_event.is_set():
+            from sim.sqlite_seam import SEAM
+            SEAM.crash_plan = None          # the release sequence never got that far: no crash in this run
+            sup.cancel()
+        else:
+            await asyncio.wait([sup], timeout=400)
     if stuck is None:
         if await _settle(world):
             world.trace.log("quiescent", phase="pre-fin")
@@ -395,7 +445,7 @@ async def scenario_dbos(world, spec):
             stuck = "pre-fin"
     lc, hs = _lc_state(world)
     world.trace.log("quiescent", phase="end", stuck=stuck, lifecycle=lc, handler=hs, live=len(world.live_runners.get(rid) or []))
-    return {"stuck": stuck, "lifecycle": lc, "handler": hs, "stall": stall, "lat": lat_k}
+    return {"stuck": stuck, "lifecycle": lc, "handler": hs, "stall": stall, "lat": lat_k, "crash": crash if (crash and world.crash_event.is_set()) else None}
 
 
 def check_dbos(world, spec, outcome) -> None:
@@ -423,6 +473,13 @@ def check_dbos(world, spec, outcome) -> None:
     stalled = outcome.get("stall")
     stall_attr = f"{stalled['op']}/{stalled['side']}/{'dead' if stalled['secs'] > 1000 else ('long' if stalled['secs'] > 120 else 'short')}" if stalled and any(k == "lc-stall" for _, _, k, _ in recs) else None
     attrs = {"backend": "dbos", "lifecycle_stall": stall_attr, "lifecycle_latency": bool(outcome.get("lat"))}
+    crash_lc = next((f["lifecycle"] for _, _, k, f in recs if k == "replica-crash"), None)
+    if outcome.get("crash"):
+        attrs["releaser_crashed_in"] = crash_lc or "none"
+    live_by_inc: dict = {}
+    recvd: dict = {}
+    consumed_by_dead: set = set()
+    inflight_dead: set = set()
     for seq, t, kind, f in recs:
         if kind == "lc":
             lcs.append((seq, f["op"], f["replica"], f["result"]))
@@ -497,12 +554,32 @@ def check_dbos(world, spec, outcome) -> None:
             if f["ev"] in ("StopEvent", "WorkflowFailedEvent", "WorkflowCancelledEvent", "WorkflowTimedOutEvent") and ended_at is None:
                 ended_at = seq
                 end_kind = f["ev"]
+        elif kind == "dbos-recv" and f.get("uid") is not None:
+            recvd[f["uid"]] = f.get("inc")
+        elif kind == "killed":
+            # the loops of the dead process died with it (no runner-exit is logged for them)
+            live -= live_by_inc.pop(f["inc"], 0)
+            open_inv.clear()
+            unacked.clear()
+            # messages its recv had consumed (and recorded) without the tick having been reduced: whether recovery hands them to the
+            # run again is C27's subject (known finding C27-result-unjournaled-recv-purged); here it is the root-cause attribute
+            for u, n_ in recvd.items():
+                if n_ == f["inc"] and u not in processed:
+                    consumed_by_dead.add(u)
+            in_mailbox -= consumed_by_dead
+            # requests the dead process had accepted (the service answers before its send task has run) and not yet enqueued
+            for u, (_, _, sf) in sends.items():
+                if sf.get("via_inc") == f["inc"] and u not in sent_at and u not in processed:
+                    inflight_dead.add(u)
         elif kind == "runner-start":
             live += 1
+            live_by_inc[f.get("inc")] = live_by_inc.get(f.get("inc"), 0) + 1
             if live >= 2:
                 world.violate("C26.two-loops", f"DBOS stack: {live} live control loops for run {f['run']} (runner #{f['runner']} started while another is live)", seq, **attrs)
         elif kind == "runner-exit":
-            live -= 1
+            if live_by_inc.get(f.get("inc"), 0) > 0:
+                live_by_inc[f.get("inc")] -= 1
+                live -= 1
         elif kind == "dbos-resume":
             world.probe("resumed")
         elif kind == "dbos-resumed":
@@ -538,7 +615,9 @@ def check_dbos(world, spec, outcome) -> None:
             world.violate("C26.event-lost", f"DBOS stack: event uid={u} ({f['ev']}, via replica {f['replica']}) sent at t={st} was never processed by the run "
                           f"({'send returned' if u in returned else 'send never returned'}; releases: {n_rel}; reload errors: {rerr}; end state: {outcome})", sseq,
                           send_returned=u in returned, reload_error=rerr[0] if rerr else None, end_lifecycle=outcome.get("lifecycle"),
-                          lost_how=send_ctx.get(u, "never-reached-the-mailbox"), stale_active_verdict=stale, **attrs)
+                          lost_how="consumed-by-recv-of-crashed-process" if u in consumed_by_dead else (
+                              "accepted-by-crashed-replica-never-enqueued" if (u in inflight_dead and u not in sent_at) else send_ctx.get(u, "never-reached-the-mailbox")),
+                          stale_active_verdict=stale, **attrs)
     if outcome.get("stuck") and not world.violations:
         world.violate("C26.event-lost", f"DBOS stack: the system never became quiet within {SETTLE} s of the last send (phase {outcome['stuck']}); end state: {outcome}",
                       how="never-quiet", end_lifecycle=outcome.get("lifecycle"), **attrs)
